@@ -278,6 +278,14 @@ func (e *Env) resolveType(name string) (types.Type, Sort) {
 	}
 	ptr := strings.HasPrefix(name, "*")
 	n := strings.TrimPrefix(name, "*")
+	if ptr {
+		// pointer to a basic or slice type: *string, *bool, *int, *[]string
+		if bt, ok := map[string]types.Type{"string": types.Typ[types.String], "bool": types.Typ[types.Bool], "int": types.Typ[types.Int],
+			"[]string": types.NewSlice(types.Typ[types.String]), "[]byte": types.NewSlice(types.Typ[types.Uint8])}[n]; ok {
+			T := types.NewPointer(bt)
+			return T, e.fe.sorts.SortOf(T)
+		}
+	}
 	var obj types.Object
 	if i := strings.Index(n, "."); i >= 0 {
 		if p := e.findPkg(n[:i]); p != nil {
@@ -862,7 +870,14 @@ func (e *Env) call(x *SExpr) Term {
 		if T == nil || !isRefLike(T) {
 			e.fail("as needs a pointer-like type, got %s", x.Args[1].Str)
 		}
-		return Term{a.S, SInt, T}
+		// an interface holding a typed nil pointer is the (negative) constant boxnil_<tag>; the pointer read out of it is nil
+		tag := fe.sorts.Tag(T)
+		bf := "boxnil_" + fmt.Sprint(tag)
+		fe.pre.decl("(declare-fun typetag (Int) Int)")
+		fe.pre.decl(fmt.Sprintf("(declare-const %s Int)", bf))
+		fe.pre.decl(fmt.Sprintf("(assert (< %s 0))", bf))
+		fe.pre.decl(fmt.Sprintf("(assert (= (typetag %s) %d))", bf, tag))
+		return Term{sIte(fmt.Sprintf("(= %s %s)", a.S, bf), "0", a.S), SInt, T}
 	case "matches":
 		// matches(s, "regex literal"): literal regular expression membership (unanchored, Go semantics)
 		need(2)
